@@ -97,6 +97,8 @@ def base_pool():
     return out
 
 
+EXTRA = []      # findings an operation reports itself (drained by run_program)
+
 UNARY = {
     "neg": lambda q: -q, "dag": lambda q: q.dag(), "trans": lambda q: q.trans(), "conj": lambda q: q.conj(),
     "pow0": lambda q: q ** 0, "pow2": lambda q: q ** 2, "pow3": lambda q: q ** 3, "copy": lambda q: q.copy(),
@@ -111,7 +113,7 @@ UNARY = {
     "evo_const": None, "evo_td": None, "permute": None, "transform": None, "contract": None,
     "sesolve_prop": None, "mesolve_dm": None, "propagator": None, "steadystate": None,
     "to_choi": None, "to_chi": None, "to_super_rt": None,
-    "transform_kets": None, "transform_matrix": None, "solver_reuse_me": None, "solver_reuse_se": None,
+    "evo_complex_coeff": None, "transform_kets": None, "transform_matrix": None, "solver_reuse_me": None, "solver_reuse_se": None,
     "trunc_neg": lambda q: q.trunc_neg() if q.isherm else q,
 }
 BINARY = {
@@ -153,6 +155,29 @@ def apply_op(name, args, rng):
         return qutip.QobjEvo(q)(0.5)
     if name == "evo_td":
         return qutip.QobjEvo([q, [args[1], lambda t: t]])(2.0) if q.dims == args[1].dims else q.copy()
+    if name == "evo_complex_coeff":
+        # a coefficient whose imaginary part is tiny next to one, on an operator with large entries
+        if q.dims != args[1].dims:
+            return q.copy()
+        big = args[1] * float(rng.choice([1.0, 1e5, 1e7]))
+        if rng.random() < 0.7 and q.isoper and not q.issuper:
+            # both terms Hermitian, with the fact known to them
+            q = q + q.dag()
+            big = big + big.dag()
+            q.isherm
+            big.isherm
+        z = [1 + 5e-13j, 1 - 9e-13j, 1j, 1 + 1e-3j, 2.0 + 0j, 1 + 3e-11j][int(rng.integers(0, 6))]
+        ev = qutip.QobjEvo([q, [big, lambda t, z=z: z * (1.0 + 0.0 * t)]])
+        out = ev(2.0) if rng.random() < 0.7 else (ev + qutip.QobjEvo([[big, lambda t, z=z: np.conj(z) * t]]))(0.5)
+        # a sum of scaled operators has no rounding to speak of: here the library's own predicate (absolute tolerance on
+        # the entries) is the definition, also for large entries where the history oracle compares relatively
+        if out._isherm is not None:
+            am = out.full()
+            dev = float(np.abs(am - am.conj().T).max())
+            fresh = bool(qutip.Qobj(am.copy(), dims=out.dims).isherm)
+            if bool(out._isherm) != fresh and (dev > 1e-9 or dev < 1e-15):
+                EXTRA.append(("isherm:evo_complex_coeff", f"QobjEvo evaluated with coefficient {z} on entries of size {np.abs(am).max():.1e}: cached isherm={out._isherm} but the matrix deviates from Hermitian by {dev:.1e} (isherm recomputed: {fresh})"))
+        return out
     if name == "permute":
         if not (q.isoper and args[1].isoper and not q.issuper and not args[1].issuper):
             return q.copy()
@@ -315,10 +340,12 @@ def run_program(prog, rules=None):
                     if got not in rules[op][key](pa, pb):
                         mism.append(f"{op}.{flag}: caches ({pa},{pb}) -> {got}, tabulated {sorted(map(str, rules[op][key](pa, pb)))}")
         # a wrong cache is attributed to the operation that created it, not to those that forward it
-        arity2 = op in BINARY or op in ("ptrace", "evo_td", "permute")
+        arity2 = op in BINARY or op in ("ptrace", "evo_td", "permute", "evo_complex_coeff")
         operands_bad = (i in tainted) or (arity2 and j in tainted) or bool(check_obj(a, "x")) or (arity2 and bool(check_obj(b, "x")))
         if None in truth(a) or (arity2 and None in truth(b)):
             operands_bad = True      # borderline operand: whatever follows is a tolerance artefact
+        while EXTRA:
+            viol.append(EXTRA.pop())
         probs = check_obj(res, op)
         if probs:
             tainted.add(len(store) - 1)
